@@ -372,7 +372,8 @@ def run(cfg, is_async, text, ctx, pre=(), **extra):
         rfc = True
     except ValueError:
         rfc = False
-    return ('some', canon_doc(json.loads(rtext), cfg), list(codes), rfc), log
+    # 5th component: the document as sent (library texts included), for comparisons between runs of the same library
+    return ('some', canon_doc(json.loads(rtext), cfg), list(codes), rfc, json.loads(rtext) if rfc else rtext), log
 
 
 def load_result(text, loader=json.loads):
